@@ -61,7 +61,17 @@ def classify(msg):
         a, b = m.group(1).split('_'), m.group(2).split('_')
         if a[0] == 'log' or b[0] == 'log':
             if a[0] == b[0] == 'log' or '<nothing>' in (a[0], b[0]):
-                return ['log']
+                kinds = {x[1] for x in (a, b) if x[0] == 'log' and len(x) > 1}
+                extra = []
+                if kinds & {'RU', 'RR', 'RS'}:
+                    extra.append('order:util')       # a resolution record differs: the selection itself differs
+                if kinds & {'K', 'P'}:
+                    extra.append('order:plan')       # task / plan status records
+                if kinds & {'T'}:
+                    extra.append('lists')            # a request was (not) issued
+                if kinds & {'X'}:
+                    extra.append('order:guard')
+                return ['log'] + extra
             # a callback where a log record was expected (or vice versa): order of both streams
             other = a if a[0] == 'cb' else b
             return ['log', 'order:' + METHOD_CLASS.get(other[2] if len(other) > 2 else '', 'life')]
@@ -143,7 +153,7 @@ def FIXED_SHAPES():
     P = S.parse
     return [
         P('(C h1 i0 composite (L i0) (C h1 i0 resumable (L i1) (L i0)) (O h1 i0 (C h1 i0 composite (L i0) (L i0)) (C h1 i0 utilitarian (L i0) (L i0))))'),
-        P('(C h1 i0 composite (C h1 i0 selectable (L i0) (C h1 i0 composite (L i0) (L i0)) (L i0)) (C h1 i0 random (L i0) (L i0) (L i0)) (L i2))'),
+        P('(C h1 i0 composite (C h1 i0 selectable (L i0) (C h1 i0 composite (L i0) (L i0)) (L i0)) (C h1 i0 random (L i0) (L i0) (L i0) (L i0)) (L i2))'),
         P('(O h1 i0 (C h1 i0 resumable (L i0) (L i0) (L i0)) (C h1 i1 composite (L i0) (O h1 i0 (L i0) (L i0) (L i0))))'),
     ]
 
@@ -155,11 +165,11 @@ def _build(job):
 
 
 def _run(job):
-    idx, exe, seed, scen, ops, out = job
+    idx, exe, seed, scen, ops, out, sweep = job
     t0 = time.time()
     with open(out, 'wb') as f:
         try:
-            p = subprocess.run([exe, str(seed), str(scen), str(ops)], stdout=f, stderr=subprocess.PIPE, timeout=1500)
+            p = subprocess.run([exe, str(seed), str(scen), str(ops), str(sweep)], stdout=f, stderr=subprocess.PIPE, timeout=1500)
             st, err = p.returncode, p.stderr.decode('utf8', 'replace')[-4000:]
         except subprocess.TimeoutExpired:
             st, err = -9, 'timeout (possible non-termination inside the library)'
@@ -200,7 +210,7 @@ def full_run(tier, seed):
                 continue
             prog['built'] = True
             prog['exe'] = exe
-            runs.append((idx, exe, seed, scen, ops, os.path.join(trdir, 't%03d.txt' % idx)))
+            runs.append((idx, exe, seed, scen, ops, os.path.join(trdir, 't%03d.txt' % idx), 600 if tier == 'quick' else 6000))
         with cf.ThreadPoolExecutor(max_workers=V.JOBS) as ex:
             done = list(ex.map(_run, runs))
         stats = O.Stats()
